@@ -1682,6 +1682,13 @@ impl SctpInner {
             // Fixed params
             return Ok(());
         }
+        // A duplicated or delayed INIT must not touch an established association
+        // (RFC 4960 §5.2.2): re-running the setup below would reset the receive
+        // point and pick a new local tag and initial TSN under live traffic.
+        if *self.state.lock() == SctpState::Connected {
+            debug!("SCTP: ignoring INIT received on an established association");
+            return Ok(());
+        }
         let initiate_tag = buf.get_u32();
         let a_rwnd = buf.get_u32();
         let _outbound_streams = buf.get_u16();
